@@ -6,6 +6,7 @@ from checks.engine import Failure
 
 WHAT = "model,hooks,classes,erase,order"
 LEVEL = "proof"
+WHOLE_TREE = True     # pi: the whole output tree of the executable model (positions aside)
 RULE = ("(1) tree level: regression corpus + snippets + random programs + shape catalogue: the extracted validators (eraser, evaluation-order checker, "
         "hygiene) must accept the implementation's output tree; (2) execution level: seeded executable programs (gen/execgen.py: every operation form x "
         "operand shape x statement context, strict and sloppy) whose free variables are observable proxies -- every get / set / has / delete / call / "
